@@ -309,6 +309,17 @@ def spec_tower():
                 warm=['0, 0, 1, 1', '0, 3, 0, 6', '1, 5, 0, 1'], timeout=600, stubs=False)
 
 
+def spec_lookalike(a):
+    """Boolean-ish option a over a menu of values that compare equal to booleans without being booleans
+    (1, 0, 1.0, 0.0) next to True / False / None, picked by a symbolic index (so float values stay
+    concrete); two creations."""
+    params = [('i1', 'int'), ('i2', 'int')]
+    body = (f"M = [True, False, 1, 0, 1.0, 0.0, None, 'True']\n"
+            f"return check_history([{{'{a}': pick(M, i1)}}, {{'{a}': pick(M, i2)}}])")
+    return Spec(f'lookalike_{a}', params, body, setup=SETUP, pre=['0 <= i1 < 8', '0 <= i2 < 8'],
+                warm=['0, 1', '2, 4', '6, 0'], timeout=200, stubs=False)
+
+
 def spec_cls_bool(a, b):
     params = [('i1', 'int'), ('i2', 'int'), ('w1', NUM), ('w2', NUM)]
     body = (f"return check_history([{{'{a}': pick(CLASSES, i1), '{b}': w1}}, {{'{b}': w2, '{a}': pick(CLASSES, i2)}}])")
@@ -325,7 +336,8 @@ def specs(tier, seed=0):
         out += [spec_bool_pair(*pairs[i]) for i in (0, 5)]
         out += [spec_enum('strategy', 'is_debug'), spec_cls('violation_type'), spec_cls('warning_cls_on_decorator_exception'),
                 spec_cls_pair('violation_type', 'violation_door_type'), spec_cls_quad(2),
-                spec_coll('claw_skip_package_names', 13), spec_coll('hint_overrides', 8), spec_tower()]
+                spec_coll('claw_skip_package_names', 13), spec_coll('hint_overrides', 8), spec_tower(),
+                spec_lookalike('is_debug'), spec_lookalike('is_color')]
         return out
     out += [spec_bool_pair(a, b) for a, b in pairs]
     out += [spec_triple(a) for a in BOOL_OPTS]
@@ -337,6 +349,7 @@ def specs(tier, seed=0):
         out.append(spec_cls_pair(a, b))
     out.append(spec_cls_quad(2))
     out.append(spec_cls_quad(3))
+    out += [spec_lookalike(a) for a in BOOL_OPTS]
     out += [spec_tower(), spec_coll('claw_skip_package_names', 13), spec_coll('hint_overrides', 8),
             spec_coll('claw_skip_package_names', 13, 'is_debug'), spec_coll('hint_overrides', 8, 'is_random')]
     for i, a in enumerate(CLS_OPTS):
